@@ -154,6 +154,15 @@ func (n *LocalNode) RequestToJoin(joiner chord.VNode) (chord.VNode, []chord.VNod
 		return nil, nil, chord.ErrJoinInvalidState
 	}
 
+	// the predecessor delimits the key range handed over to the joiner. if it has
+	// left (or failed) and stabilization has not caught up with it yet, the range
+	// would be too small and the keys it handed to us would stay behind
+	if prevPredecessor.ID() != n.ID() {
+		if err := prevPredecessor.Ping(); err != nil {
+			return nil, nil, chord.ErrJoinInvalidState
+		}
+	}
+
 	// see issue https://github.com/zllovesuki/specter/issues/23
 	if !chord.Between(prevPredecessor.ID(), joiner.ID(), n.ID(), false) {
 		return nil, nil, chord.ErrJoinInvalidSuccessor
